@@ -201,6 +201,18 @@ PROPS = {
                                      'query commands = SFC_GET_* and SFC_CALC_* (list in c17_command_grid.c); their purity is a digest over hook state + backing store'],
         floor={'quick': 5000, 'thorough': 20000},
     ),
+    'C18': dict(
+        runs=[dict(src='c18_peak_signal_max.c')],
+        level='exploration',
+        rule=('part A: case = (PEAK container in WAV/WAVEX/AIFF/CAF/RF64, float|double, channels in {1,2,5,8,(3)}, write type in 4, sequence in {max at first frame, last '
+              'frame, at the 2048-item staging boundary, middle, tied maxima, silence}, partition in 6); after re-open SFC_GET_SIGNAL_MAX / MAX_ALL_CHANNELS and the PEAK '
+              'chunk parsed by the harness (value and FIRST position per channel) are compared with maxima computed by the harness in the file precision. quick runs one '
+              'third of the cross product, thorough all of it. part B: every seekable format x {1,2} channels: the four SFC_CALC_* commands at positions {0, F/2, F} under 4 '
+              'normalisation profiles vs maxima from an independent handle; position, norm flags and the next frame read must be unchanged. distinct = hash(parameters)'),
+        assumptions=COMMON_ASSUME + ['true maxima of lossy codecs are taken from a full sf_readf_double on a second handle (its conversion rules are C02)',
+                                     'PEAK chunk layout (WAV/AIFF: version, timestamp, {float32 value, uint32 position} per channel; CAF: edit count, {float32, uint64}) is coded in the harness'],
+        floor={'quick': 300, 'thorough': 1000},
+    ),
 }
 
 NOT_APPLICABLE = {}
